@@ -68,3 +68,12 @@ Print Assumptions C18_defaults_leave_scalars.
 Theorem C18_defaults_only_append_members : forall r d, ext_keys d (apply_defaults r d).
 Proof. exact apply_defaults_ext_keys. Qed.
 Print Assumptions C18_defaults_only_append_members.
+
+(* non-vacuity: a nested instance in which the inner object gets the one absent member that has a default, after the
+   members it had; the outer object and the members present are untouched *)
+Definition c18_res : res := mkRes [] 0 [] [(1, 10, [None]); (2, 20, [Some VNil]); (2, 21, [None; Some (VBool false); Some (VBool true)])] [].
+Definition c18_data : goval := VObj 1 [(10, VObj 2 [(20, VBool true); (22, VBool false)]); (11, VNil)].
+Example C18_nested_instance :
+  apply_defaults c18_res c18_data =
+  VObj 1 [(10, VObj 2 [(20, VBool true); (22, VBool false); (21, VBool false)]); (11, VNil)].
+Proof. vm_compute. reflexivity. Qed.
